@@ -443,6 +443,132 @@ fn poison(t: &mut Tape, prog: &mut Prog) -> String {
     }
 }
 
+/// A derived type whose own vftable block disagrees with its first base's table: rejected by design,
+/// through an error path that prints both functions.
+fn vftable_mismatch(t: &mut Tape, prog: &mut Prog) -> String {
+    let mut sites: Vec<(usize, usize, Vft)> = vec![];
+    for (mi, m) in prog.mods.iter().enumerate() {
+        for (ii, it) in m.items.iter().enumerate() {
+            let Item::Type(td) = it else { continue };
+            let Some(bf) = td.fields.iter().find(|f| f.base) else { continue };
+            let Ty::Named(bn) = &bf.ty else { continue };
+            // base type by short name anywhere in the program
+            let base = prog.mods.iter().flat_map(|m| m.types()).find(|t| &t.name == bn);
+            if let Some(v) = base.and_then(|b| b.vft.clone()) {
+                if !v.funcs.is_empty() {
+                    sites.push((mi, ii, v));
+                }
+            }
+        }
+    }
+    if sites.is_empty() {
+        return "none".into();
+    }
+    let (mi, ii, mut v) = sites[t.below(sites.len() as u64) as usize].clone();
+    let k = t.below(v.funcs.len() as u64) as usize;
+    match t.below(5) {
+        0 => v.funcs[k].name = format!("{}_x", v.funcs[k].name),
+        1 => v.funcs[k].args.push(Arg::Named("extra".into(), Ty::n("u8"))),
+        2 => v.funcs[k].ret = Some(Ty::n("u64").cptr()),
+        3 => {
+            v.funcs.truncate(k);
+        }
+        _ => v.funcs[k].cc = Some("fastcall".into()),
+    }
+    // the docs of the functions involved are what the message prints
+    let d = edge_doc(t);
+    if let Some(f) = v.funcs.get_mut(k) {
+        f.doc = d.clone();
+    }
+    if let Item::Type(td) = &mut prog.mods[mi].items[ii] {
+        td.vft = Some(v);
+    }
+    if t.chance(1, 2) {
+        // and on the base's side
+        for m in prog.mods.iter_mut() {
+            for it in m.items.iter_mut() {
+                if let Item::Type(td) = it {
+                    if let Some(bv) = &mut td.vft {
+                        if let Some(f) = bv.funcs.get_mut(k) {
+                            if t.chance(1, 2) {
+                                f.doc = d.clone();
+                            }
+                        }
+                    }
+                }
+            }
+        }
+    }
+    "vftable-mismatch".into()
+}
+
+fn edge_doc(t: &mut Tape) -> Vec<String> {
+    match t.below(9) {
+        0 => vec![String::new()],
+        1 => vec![String::new(), String::new()],
+        2 => vec![" é".into()],
+        3 => vec!["é".into(), String::new()],
+        4 => vec![" \u{1F600} 😀 ß ∑".into()],
+        5 => vec![" \"quote\" #\" r#\"".into()],
+        6 => vec![" x".repeat(300)],
+        7 => vec![" */ /* {{ }} {} {0}".into()],
+        _ => vec![" \\".into(), "\t".into()],
+    }
+}
+
+/// Doc comments with content that needs care (empty, multi-byte, quotes, braces) on random elements.
+fn edge_docs(t: &mut Tape, prog: &mut Prog) -> String {
+    for m in prog.mods.iter_mut() {
+        if t.chance(1, 6) {
+            m.doc = edge_doc(t);
+        }
+        for it in m.items.iter_mut() {
+            match it {
+                Item::Type(td) => {
+                    if t.chance(1, 5) {
+                        td.doc = edge_doc(t);
+                    }
+                    for f in td.fields.iter_mut() {
+                        if f.name != "_" && t.chance(1, 6) {
+                            f.doc = edge_doc(t);
+                        }
+                    }
+                    if let Some(v) = &mut td.vft {
+                        for f in v.funcs.iter_mut() {
+                            if t.chance(1, 4) {
+                                f.doc = edge_doc(t);
+                            }
+                        }
+                    }
+                }
+                Item::Enum(e) => {
+                    if t.chance(1, 5) {
+                        e.doc = edge_doc(t);
+                    }
+                    for v in e.variants.iter_mut() {
+                        if t.chance(1, 6) {
+                            v.doc = edge_doc(t);
+                        }
+                    }
+                }
+            }
+        }
+        for im in m.impls.iter_mut() {
+            for f in im.funcs.iter_mut() {
+                if t.chance(1, 4) {
+                    f.doc = edge_doc(t);
+                }
+            }
+        }
+        for ev in m.ext_vals.iter_mut() {
+            if t.chance(1, 5) {
+                ev.doc = edge_doc(t);
+            }
+        }
+    }
+    "edge-docs".into()
+}
+
 pub struct Directed;
 impl Prop for Directed {
     type Case = Case;
@@ -450,7 +576,7 @@ impl Prop for Directed {
         "C12/directed".into()
     }
     fn rule(&self) -> String {
-        "grammar-directed hostile inputs: (a) accepted programs from the rich generator with 1-3 poisonings: a boundary integer (isize::MIN, -1, 0, 1, 2^31±1, 2^32, 2^63-1, values near usize::MAX/k) in a numeric position (field address, type size/align/singleton, vftable size, vfunc index, array length, unknown<N>, enum value, extern-type size/align, function and extern-value address; positive table sizes/indices capped at 65536), an unusual identifier (`_`, raw, unicode, names of generated items) in a name position, #[base] on arbitrary fields, by-value recursion, cyclic/self/empty `use`, odd module file names; (b) syntactically valid random modules over the full grammar (gast) as one or two modules. Every case runs in a worker process under RLIMIT_AS 2 GiB / RLIMIT_CPU 20 s through parse_str, add_module+build+write_module and pyxis::build on disk. Oracle: every call returns; no panic (incl. arithmetic overflow: overflow checks on), abort, segfault or limit hit; both entry points agree on Ok/Err. Non-trivial: >=1 file parses".into()
+        "grammar-directed hostile inputs: (a) accepted programs from the rich generator with 1-3 poisonings: a boundary integer (isize::MIN, -1, 0, 1, 2^31±1, 2^32, 2^63-1, values near usize::MAX/k) in a numeric position (field address, type size/align/singleton, vftable size, vfunc index, array length, unknown<N>, enum value, extern-type size/align, function and extern-value address; positive table sizes/indices capped at 65536), an unusual identifier (`_`, raw, unicode, names of generated items) in a name position, #[base] on arbitrary fields, by-value recursion, cyclic/self/empty `use`, odd module file names; name-clash perturbations (one program in three), a derived vftable block that disagrees with its base's table (one in three), doc comments with edge content (empty, multi-byte, quotes, braces, long; one in three); (b) syntactically valid random modules over the full grammar (gast) as one or two modules. Every case runs in a worker process under RLIMIT_AS 2 GiB / RLIMIT_CPU 20 s through parse_str, add_module+build+write_module and pyxis::build on disk. Oracle: every call returns; no panic (incl. arithmetic overflow: overflow checks on), abort, segfault or limit hit; both entry points agree on Ok/Err. Non-trivial: >=1 file parses".into()
     }
     fn gen(&self, t: &mut Tape) -> Case {
         let w = if t.chance(1, 2) { 8 } else { 4 };
@@ -470,13 +596,23 @@ impl Prop for Directed {
         let mut cfg = GenCfg::rich(w);
         cfg.max_items = 1 + t.below(6);
         cfg.max_fields = 4;
-        cfg.docs = false;
+        cfg.docs = t.chance(1, 3);
         cfg.backends = t.chance(1, 4);
+        // programs that are rejected by design exercise the error paths (which format names, docs, functions)
+        cfg.clashes = 3;
+        cfg.vft_num = 2;
+        cfg.base_num = 2;
         let (mut prog, _, _) = gen_prog(t, cfg);
         let n = 1 + t.below(3);
         let mut whats = vec![];
         for _ in 0..n {
             whats.push(poison(t, &mut prog));
+        }
+        if t.chance(1, 3) {
+            whats.push(vftable_mismatch(t, &mut prog));
+        }
+        if t.chance(1, 3) {
+            whats.push(edge_docs(t, &mut prog));
         }
         whats.sort();
         whats.dedup();
